@@ -62,6 +62,9 @@ MC_MODELS = {
     # ... and termination: a lexicographic rank decreases on every step, for inputs of any length (action invariant)
     "len_progress": {"module": "LenMachine.tla", "timeout": 1800,
                      "apalache": ["--cinit=ConstInit", "--init=IndInit", "--next=Next", "--inv=Progress", "--length=1"]},
+    # ... and the same two facts as TLAPS theorems (no bound on anything; thorough tier)
+    "len_tlaps": {"module": "LenMachine.tla", "tlaps": "LenMachineProof.tla", "timeout": 1800, "thorough_only": True},
+    "enclen_tlaps": {"module": "EncLenMachine.tla", "tlaps": "EncLenMachineProof.tla", "timeout": 1800, "thorough_only": True},
     # the position arithmetic of the encoder with octet values forgotten: TLC with scaled-down limits (both
     # refusals reached) and Apalache: Safe is INDUCTIVE for writers, AVP counts and payloads of any size
     "enclen_tlc": {"module": "../EncLenMachine.tla", "cfg": "MCEncLenMachine.cfg"},
@@ -85,7 +88,7 @@ COMMON_ASSUMPTIONS = [
 
 PROPS = {
     "C01": {
-        "mc": DEC_MODELS + ["len_tlc", "len_base", "len_step", "len_progress"], "gen": ["decode", "avps", "payload", "decode_big", "many_avps", "avp_lengths", "octet_sweep", "text_classes", "record_product"],
+        "mc": DEC_MODELS + ["len_tlc", "len_base", "len_step", "len_progress", "len_tlaps"], "gen": ["decode", "avps", "payload", "decode_big", "many_avps", "avp_lengths", "octet_sweep", "text_classes", "record_product"],
         "rule": "TLC-explored boundary grammars of the decoder machine (every run exported and replayed) + seeded "
                 "random / mutated / raw inputs through both entry points, the bare AVP list reader and the per-type "
                 "readers, in a dev build (overflow checks, debug assertions) and a release build, under catch_unwind "
@@ -93,7 +96,7 @@ PROPS = {
         "assumptions": COMMON_ASSUMPTIONS + ["random inputs up to ~2 KiB; targeted inputs up to 131 KiB (16-bit sums near 65 535 with the octets really present)", "per-case watchdog 10 s (quick) / 30 s (thorough) without progress; after three hangs the remaining cases are not run"],
     },
     "C02": {
-        "mc": DEC_MODELS + ["hid_reveal", "len_tlc", "len_base", "len_step"], "gen": ["decode_readers", "avps_readers", "payload_readers", "reveal"], "readers": "all",
+        "mc": DEC_MODELS + ["hid_reveal", "len_tlc", "len_base", "len_step", "len_tlaps"], "gen": ["decode_readers", "avps_readers", "payload_readers", "reveal"], "readers": "all",
         "rule": "as C01, every input decoded through SliceReader, a monitoring reader that logs each request with the "
                 "octets remaining, and a queue-backed reader; every logged request validated against the Reader contract "
                 "machine; the three outcomes must coincide",
@@ -128,7 +131,7 @@ PROPS = {
         "assumptions": COMMON_ASSUMPTIONS,
     },
     "C07": {
-        "mc": ["enc_sizes", "enc_avps", "enc_huge", "enclen_tlc", "enclen_base", "enclen_step"], "gen": ["encode", "encode_seq", "small_values", "avp_lengths", "kind_pairs", "text_classes", "rfc_messages"],
+        "mc": ["enc_sizes", "enc_avps", "enc_huge", "enclen_tlc", "enclen_base", "enclen_step", "enclen_tlaps"], "gen": ["encode", "encode_seq", "small_values", "avp_lengths", "kind_pairs", "text_classes", "rfc_messages"],
         "rule": "size boundaries of the 10-bit AVP length (values of 1015..1019, 2000 octets) and of the 16-bit message "
                 "length (65 534..65 536 octets), plus seeded random values; panic iff the specification's encoder refuses; "
                 "an independent walk over the emitted length fields; get_length against the emitted size",
@@ -143,7 +146,7 @@ PROPS = {
         "assumptions": COMMON_ASSUMPTIONS,
     },
     "C09": {
-        "mc": ["enc_avps", "enc_msgs", "enc_sizes", "session_q", "session_t", "enclen_tlc", "enclen_base", "enclen_step"], "gen": ["encode", "encode_seq", "many_avps", "avp_lengths", "kind_pairs", "rfc_messages"],
+        "mc": ["enc_avps", "enc_msgs", "enc_sizes", "session_q", "session_t", "enclen_tlc", "enclen_base", "enclen_step", "enclen_tlaps"], "gen": ["encode", "encode_seq", "many_avps", "avp_lengths", "kind_pairs", "rfc_messages"],
         "rule": "encodes into writers pre-filled with 0..300 octets (VecWriter and a monitoring writer that logs every "
                 "append and positional overwrite), sequences of 1..5 values into one writer; TLC: OnlyAppend / "
                 "PatchInsideFrame / AppendOrPatch on the Encoder machine, WriterIsConcat on the session machine",
